@@ -661,6 +661,8 @@ func checkC02(r *Run) {
 	silentStatementsRule(r, "R2")
 	literalTextRule(r, "R3")
 	textScannerRuleSSA(r, "R4")
+	r.Rule("R5", "literal text stays byte-identical: on the literal-text path of the lexer no single byte is converted to a string (string(b) re-encodes bytes >= 0x80)", 1)
+	literalBytesRule(r, "R5")
 }
 
 // textScannerRule: must-pass-through of the tag-start test in the literal-text loop.
